@@ -1,9 +1,427 @@
+// Generators for serialization, writers, memory maps, temp names: C06, C07, C12, C13, C14, C18, C19, C20.
+// The encoders in this file are written from SERIALIZATION.md only (they never call the library).
 use crate::gen::*;
-pub fn c06(_g: &mut Gen) { panic!("harness: generator c06 not built yet"); }
-pub fn c07(_g: &mut Gen) { panic!("harness: generator c07 not built yet"); }
-pub fn c12(_g: &mut Gen) { panic!("harness: generator c12 not built yet"); }
-pub fn c13(_g: &mut Gen) { panic!("harness: generator c13 not built yet"); }
-pub fn c14(_g: &mut Gen) { panic!("harness: generator c14 not built yet"); }
-pub fn c18(_g: &mut Gen) { panic!("harness: generator c18 not built yet"); }
-pub fn c19(_g: &mut Gen) { panic!("harness: generator c19 not built yet"); }
-pub fn c20(_g: &mut Gen) { panic!("harness: generator c20 not built yet"); }
+use crate::gen_bv::{bitstring, make_bits, words_of_bits};
+
+fn ws(v: &[u64]) -> String { v.iter().map(|x| x.to_string()).collect::<Vec<_>>().join(" ") }
+fn hex(bs: &[u8]) -> String { if bs.is_empty() { "-".to_string() } else { bs.iter().map(|b| format!("{:02x}", b)).collect() } }
+
+// ---- document-level encoders ---------------------------------------------------------------------------
+pub fn doc_bytes(bs: &[u8]) -> Vec<u64> {
+    let mut out = vec![bs.len() as u64];
+    for c in bs.chunks(8) { let mut w = [0u8; 8]; w[..c.len()].copy_from_slice(c); out.push(u64::from_le_bytes(w)); }
+    out
+}
+pub fn doc_vec(v: &[u64]) -> Vec<u64> { let mut out = vec![v.len() as u64]; out.extend_from_slice(v); out }
+pub fn pack_bits(bits: &[bool]) -> Vec<u64> {
+    let mut words: Vec<u64> = vec![0; (bits.len() + 63) / 64];
+    for (i, b) in bits.iter().enumerate() { if *b { words[i / 64] |= 1u64 << (i % 64); } }
+    words
+}
+pub fn doc_raw(bits: &[bool]) -> Vec<u64> { let mut out = vec![bits.len() as u64]; out.extend(doc_vec(&pack_bits(bits))); out }
+pub fn doc_int(items: &[u64], width: u64) -> Vec<u64> {
+    let mut bits: Vec<bool> = Vec::new();
+    for x in items { for i in 0..width { bits.push((x >> i) & 1 == 1); } }
+    let mut out = vec![items.len() as u64, width]; out.extend(doc_raw(&bits)); out
+}
+/// plain bitvector with no support structures
+pub fn doc_bv(bits: &[bool]) -> Vec<u64> {
+    let mut out = vec![bits.iter().filter(|b| **b).count() as u64];
+    out.extend(doc_raw(bits)); out.extend([0u64, 0, 0]); out
+}
+/// sparse vector with an arbitrary admissible low width
+pub fn doc_sparse(n: u64, vals: &[u64], w: u64) -> Vec<u64> {
+    let buckets = (n >> w) + if n & ((1u64 << w) - 1) != 0 { 1 } else { 0 };
+    let mut high: Vec<bool> = Vec::new();
+    let mut i = 0usize;
+    for b in 0..buckets { while i < vals.len() && (vals[i] >> w) == b { high.push(true); i += 1; } high.push(false); }
+    let low: Vec<u64> = vals.iter().map(|v| v & ((1u64 << w) - 1)).collect();
+    let mut out = vec![n]; out.extend(doc_bv(&high)); out.extend(doc_int(&low, w)); out
+}
+fn rl_code(mut v: u64, out: &mut Vec<u64>) { while v > 7 { out.push((v & 7) | 8); v >>= 3; } out.push(v); }
+/// run-length vector; `extra_width` widens the samples beyond the minimum (any sufficient width is admissible on input)
+pub fn doc_rl(len: u64, runs: &[(u64, u64)], extra_width: u64) -> Vec<u64> {
+    let mut units: Vec<u64> = Vec::new();
+    let mut samples: Vec<(u64, u64)> = Vec::new();
+    let (mut tail, mut ones) = (0u64, 0u64);
+    for (s, l) in runs {
+        let mut code: Vec<u64> = Vec::new();
+        rl_code(s - tail, &mut code); rl_code(l - 1, &mut code);
+        if units.len() + code.len() > samples.len() * 64 { while units.len() < samples.len() * 64 { units.push(0); } samples.push((ones, tail)); }
+        units.extend(code); tail = s + l; ones += l;
+    }
+    let maxv = samples.last().map(|p| p.1).unwrap_or(0);
+    let width = std::cmp::min(64, (64 - (maxv | 1).leading_zeros()) as u64 + extra_width);
+    let flat: Vec<u64> = samples.iter().flat_map(|p| vec![p.0, p.1]).collect();
+    let mut out = vec![len, ones]; out.extend(doc_int(&flat, width)); out.extend(doc_int(&units, 4)); out
+}
+/// wavelet matrix, levels without support structures
+pub fn doc_wm(vals: &[u64]) -> Vec<u64> {
+    let maxv = vals.iter().cloned().max().unwrap_or(0);
+    let width = (64 - (maxv | 1).leading_zeros()) as u64;
+    let mut out = vec![vals.len() as u64, width];
+    let mut cur: Vec<u64> = vals.to_vec();
+    for level in 0..width {
+        let bit = 1u64 << (width - 1 - level);
+        let bits: Vec<bool> = cur.iter().map(|v| v & bit != 0).collect();
+        out.extend(doc_bv(&bits));
+        let mut next: Vec<u64> = cur.iter().filter(|v| *v & bit == 0).cloned().collect();
+        next.extend(cur.iter().filter(|v| *v & bit != 0).cloned());
+        cur = next;
+    }
+    // first: position of the first occurrence of each alphabet value in the reordered vector, or len
+    let mut first: Vec<u64> = vec![vals.len() as u64; (maxv + 1) as usize];
+    for (pos, v) in cur.iter().enumerate() { if first[*v as usize] == vals.len() as u64 { first[*v as usize] = pos as u64; } }
+    let fw = (64 - (first.iter().cloned().max().unwrap_or(0) | 1).leading_zeros()) as u64;
+    out.extend(doc_int(&first, fw));
+    out
+}
+
+// ---- object zoo ---------------------------------------------------------------------------------------
+/// recipe lines creating one object of every serializable structure type (names Z0, Z1, …); returns the names
+fn zoo(g: &mut Gen, lines: &mut Vec<String>, size: usize) -> Vec<String> {
+    let mut names = Vec::new();
+    let bits = make_bits(g, size, 2);
+    lines.push(format!("raw Z0 from_words {} {}", bits.len(), words_of_bits(&bits))); names.push("Z0".to_string());
+    let w = 1 + g.rng.below(64);
+    let items: Vec<u64> = (0..(size / 8 + 1)).map(|_| g.rng.next() & if w == 64 { !0 } else { (1u64 << w) - 1 }).collect();
+    lines.push(format!("iv Z1 new {}", w)); lines.push(format!("iv Z1 extend {}", ws(&items))); names.push("Z1".to_string());
+    let sub = g.rng.below(8);
+    lines.push(format!("bv Z2 from_raw {} {}", bits.len(), words_of_bits(&bits)));
+    let flags: String = ["", "r", "s", "z", "rs", "rz", "sz", "rsz"][sub as usize].to_string();
+    if !flags.is_empty() { lines.push(format!("bv Z2 enable {}", flags)); }
+    names.push("Z2".to_string());
+    let sp_bits = make_bits(g, size, 3);
+    let ones: Vec<String> = sp_bits.iter().enumerate().filter(|(_, b)| **b).map(|(i, _)| i.to_string()).collect();
+    lines.push(format!("sp Z3 build {} 0 {}", sp_bits.len(), ones.join(" "))); names.push("Z3".to_string());
+    let rl_bits = make_bits(g, size, 6);
+    lines.push(format!("bv Z4src from_bits {}", bitstring(&rl_bits)));
+    lines.push("rl Z4 copy_of Z4src".to_string()); names.push("Z4".to_string());
+    let vals: Vec<u64> = (0..(size / 4 + 1)).map(|_| g.rng.below(40)).collect();
+    lines.push(format!("wm Z5 from u8 {}", ws(&vals))); names.push("Z5".to_string());
+    names
+}
+
+pub fn c06(g: &mut Gen) {
+    // plain values: every Serialize type at boundary sizes; serialize (checked against the document) and load back with
+    // trailing data in the stream
+    let mut lines = Vec::new();
+    for x in [0u64, 1, 255, 256, 1 << 32, MAXU] {
+        lines.push(format!("ser val u64 {}", x)); lines.push(format!("ser val usize {}", x));
+        lines.push(format!("ser val pair {} {}", x, MAXU - x));
+        lines.push(format!("ser val optu64 {}", x));
+        lines.push(format!("ser load u64 cut=- x=ok : {} 77", x));
+        lines.push(format!("ser load pair cut=- x=ok : {} {} 77 78", x, x ^ 5));
+        lines.push(format!("ser load optu64 cut=- x=ok : 1 {} 77", x));
+    }
+    lines.push("ser val optu64 none".to_string()); lines.push("ser load optu64 cut=- x=ok : 0 5 6".to_string());
+    lines.push("ser absent".to_string());
+    for n in [0usize, 1, 2, 7, 8, 9, 63, 64, 65, 200] {
+        let v: Vec<u64> = (0..n).map(|_| g.rng.word()).collect();
+        lines.push(format!("ser val vecu64 {}", ws(&v)));
+        lines.push(format!("ser val vecusize {}", ws(&v)));
+        lines.push(format!("ser load vecu64 cut=- x=ok : {} 1 2 3", ws(&doc_vec(&v))));
+        if n % 2 == 0 { lines.push(format!("ser val vecpair {}", ws(&v))); let mut d = vec![(n / 2) as u64]; d.extend(&v); lines.push(format!("ser load vecpair cut=- x=ok : {} 9", ws(&d))); }
+        lines.push(format!("ser val optvecu64 some {}", ws(&v)));
+        let bs: Vec<u8> = (0..n).map(|_| g.rng.next() as u8).collect();
+        lines.push(format!("ser val bytes {}", hex(&bs)));
+        lines.push(format!("ser load bytes cut=- x=ok : {} 4 5", ws(&doc_bytes(&bs))));
+        lines.push(format!("ser val optbytes some {}", hex(&bs)));
+        let st: Vec<u8> = (0..n).map(|i| b"simple-sds \xc3\xa4"[i % 12]).collect();
+        let st = String::from_utf8_lossy(&st).to_string().into_bytes();
+        lines.push(format!("ser val string {}", hex(&st)));
+        lines.push(format!("ser load string cut=- x=ok : {} 4 5", ws(&doc_bytes(&st))));
+        lines.push(format!("ser val optstring some {}", hex(&st)));
+    }
+    lines.push("ser load string cut=- x=err : 2 65535".to_string()); // invalid UTF-8
+    lines.push("ser val optvecu64 none".to_string()); lines.push("ser val optbytes none".to_string());
+    g.group(lines);
+    // structures: exact sizes, file round trip, reload with trailing data, back-to-back streams, equal answers after reload
+    let sizes: Vec<usize> = if g.thorough { vec![0, 1, 63, 64, 65, 513, 4097, 9000] } else { vec![0, 1, 64, 65, 600, 4200] };
+    for size in sizes {
+        for rep in 0..(if g.thorough { 4 } else { 2 }) {
+            let mut lines = Vec::new();
+            let names = zoo(g, &mut lines, size);
+            for (i, n) in names.iter().enumerate() {
+                lines.push(format!("ser sizes {}", n));
+                lines.push(format!("ser file {}", n));
+                lines.push(format!("ser reload {} Y{} extra={}", n, i, (rep + i) % 3));
+            }
+            // loaded values answer as the originals
+            lines.push("bv Y2 supports".to_string()); lines.push("bv Z2 supports".to_string());
+            lines.push("bv Y2 enable rsz".to_string()); lines.push("bv Y2 rank 5".to_string()); lines.push("bv Y2 select 1".to_string());
+            lines.push("sp Y3 rank 7".to_string()); lines.push("sp Y3 select 0".to_string()); lines.push("sp Y3 succ 3".to_string());
+            lines.push("rl Y4 rank 7".to_string()); lines.push("rl Y4 select 0".to_string()); lines.push("rl Y4 runs".to_string());
+            lines.push("wm Y5 rank 3 1".to_string()); lines.push("wm Y5 items".to_string());
+            lines.push("iv Y1 items".to_string());
+            lines.push(format!("ser seq {}", names.join(" ")));
+            lines.push(format!("ser seq {} {}", names[5], names[2]));
+            g.group(lines);
+        }
+    }
+    for c in [0u64, 1, 63, 64, 65, 1000] {
+        g.one(format!("ser size_by_params raw {}", c));
+        for w in [1u64, 13, 64] { g.one(format!("ser size_by_params iv {} {}", c, w)); }
+    }
+}
+
+pub fn c19(g: &mut Gen) {
+    // 8 subsets of supports at write time x orders of enable_* interleaved with serialize / load
+    let orders = ["rsz", "rzs", "srz", "szr", "zrs", "zsr"];
+    for (len, kind) in [(0usize, 0usize), (1, 1), (70, 2), (600, 3), (5000, 2), (4200, 4)] {
+        let bits = make_bits(g, len, kind);
+        let mut lines = vec![format!("bv FULL from_raw {} {}", len, words_of_bits(&bits)), "bv FULL enable rsz".to_string()];
+        for (si, sub) in ["", "r", "s", "z", "rs", "rz", "sz", "rsz"].iter().enumerate() {
+            let a = format!("A{}", si);
+            lines.push(format!("bv {} from_raw {} {}", a, len, words_of_bits(&bits)));
+            if !sub.is_empty() { lines.push(format!("bv {} enable {}", a, sub)); }
+            lines.push(format!("ser reload {} L{} extra=1", a, si));
+            lines.push(format!("bv L{} supports", si));
+            // enabling the rest in some order yields the fully enabled original; enabling is idempotent
+            let ord = orders[(si + len) % 6];
+            for c in ord.chars() { lines.push(format!("bv L{} enable {}", si, c)); if si % 2 == 0 { lines.push(format!("ser reload L{} L{} extra=0", si, si)); } }
+            lines.push(format!("bv L{} enable {}", si, ord));
+            lines.push(format!("bv L{} eq FULL", si));
+            lines.push(format!("bv L{} ser", si));
+            for i in [0usize, 1, len / 2, len] { lines.push(format!("bv L{} rank {}", si, i)); lines.push(format!("bv L{} select {}", si, i / 3)); lines.push(format!("bv L{} select0 {}", si, i / 3)); }
+        }
+        lines.push("bv FULL ser".to_string());
+        g.group(lines);
+    }
+    // composite structures load from files whose embedded bitvectors carry no support structures (document-level encoder)
+    for n in [0u64, 1, 70, 1000] {
+        let m = std::cmp::min(n, 40);
+        let mut vals: Vec<u64> = (0..m).map(|_| g.rng.below(n.max(1))).collect(); vals.sort(); vals.dedup();
+        let w = 1 + g.rng.below(5);
+        let mut lines = vec![format!("ser load sp cut=- x=ok store=S : {}", ws(&doc_sparse(n, &vals, w)))];
+        lines.push(format!("sp S ref {} {}", n, ws(&vals)));
+        for i in [0u64, 1, n / 2, n] { lines.push(format!("sp S rank {}", i)); lines.push(format!("sp S select {}", i % (m + 1))); lines.push(format!("sp S select0 {}", i)); lines.push(format!("sp S pred {}", i)); }
+        let wmv: Vec<u64> = (0..m).map(|_| g.rng.below(9)).collect();
+        lines.push(format!("ser load wm cut=- x=ok store=W : {}", ws(&doc_wm(&wmv))));
+        lines.push(format!("wm W ref {}", ws(&wmv)));
+        lines.push("wm W items".to_string());
+        for v in 0..10u64 { lines.push(format!("wm W rank {} {}", m / 2, v)); lines.push(format!("wm W select 0 {}", v)); }
+        g.group(lines);
+    }
+    // skipping an optional structure moves the reader exactly past it, whatever it contains
+    let mut lines = Vec::new();
+    for n in [0u64, 1, 2, 5, 64] {
+        let body: Vec<u64> = (0..n).map(|_| g.rng.word()).collect();
+        let mut stream = vec![n]; stream.extend(&body); stream.extend([11u64, 12]);
+        lines.push(format!("ser skipopt cut=- : {}", ws(&stream)));
+    }
+    g.group(lines);
+}
+
+pub fn c14(g: &mut Gen) {
+    // every strict prefix of a serialization is refused; every write budget below the size fails
+    let sizes: Vec<usize> = if g.thorough { vec![0, 1, 70, 130, 700] } else { vec![0, 1, 70, 300] };
+    for size in sizes {
+        let mut lines = Vec::new();
+        let names = zoo(g, &mut lines, size);
+        g.group(lines.clone());
+        for n in &names {
+            // the generator does not know the size: cut points are dense near the start and swept in steps; the driver
+            // knows the size and states the expectation for each line
+            let mut l2 = lines.clone();
+            let limit = 64 + size * 3;
+            let step = if size <= 70 || g.thorough { 1 } else { 7 };
+            let mut k = 0; while k <= limit { l2.push(format!("ser cutload {} {}", n, k)); l2.push(format!("ser sink {} {}", k, n)); k += if k < 80 { 1 } else { step }; }
+            g.group(l2);
+        }
+    }
+    // plain values and optionals cut at every byte
+    let mut lines = Vec::new();
+    let v: Vec<u64> = vec![5, 6, 7];
+    let enc = doc_vec(&v);
+    for k in 0..(8 * enc.len()) { lines.push(format!("ser load vecu64 cut={} x=err : {}", k, ws(&enc))); }
+    let bs = doc_bytes(b"hello world");
+    for k in 0..(8 * bs.len()) { lines.push(format!("ser load bytes cut={} x=err : {}", k, ws(&bs))); lines.push(format!("ser load string cut={} x=err : {}", k, ws(&bs))); }
+    let opt = { let mut o = vec![enc.len() as u64]; o.extend(&enc); o };
+    for k in 0..(8 * opt.len()) { lines.push(format!("ser load optvecu64 cut={} x=err : {}", k, ws(&opt))); lines.push(format!("ser skipopt cut={} : {}", k, ws(&opt))); }
+    lines.push(format!("ser skipopt cut=- : {}", ws(&opt)));
+    g.group(lines);
+    // a mapped view of a structure cut short by truncation is refused (element granularity)
+    let mut lines = Vec::new();
+    let raw = doc_raw(&make_bits(g, 200, 2));
+    for k in 1..raw.len() { lines.push(format!("map raw 0 trunc={} x=err : {}", k, ws(&raw))); }
+    let iv = doc_int(&[1, 2, 3, 4, 5, 6, 7, 8, 9, 10, 11, 12], 13);
+    for k in 1..iv.len() { lines.push(format!("map int 0 trunc={} x=err : {}", k, ws(&iv))); }
+    let by = doc_bytes(b"0123456789abcdefXYZ");
+    for k in 1..by.len() { lines.push(format!("map bytes 0 trunc={} x=err : {}", k, ws(&by))); lines.push(format!("map str 0 trunc={} x=err : {}", k, ws(&by))); }
+    g.group(lines);
+    // buffered writers under a file size limit never report success for an incomplete file
+    let limits: Vec<u64> = if g.thorough { (2..40).map(|k| k * 8).collect() } else { vec![16, 24, 32, 40, 64, 72, 128, 200, 264] };
+    for lim in limits {
+        let mut lines = Vec::new();
+        let pushes: Vec<String> = (0..30).map(|_| format!("i{},{}", g.rng.word(), 1 + g.rng.below(64))).collect();
+        lines.push(format!("wr limit {} raw 64 : {} c", lim, pushes.join(" ")));
+        lines.push(format!("wr limit {} raw 256 : {} c c", lim, pushes.join(" ")));
+        let vals: Vec<String> = (0..40).map(|_| format!("p{}", g.rng.next())).collect();
+        lines.push(format!("wr limit {} int 17 8 : {} c", lim, vals.join(" ")));
+        lines.push(format!("wr limit {} int 64 2 : {} c", lim, vals.join(" ")));
+        g.group(lines);
+    }
+}
+
+pub fn c12(g: &mut Gen) {
+    let widths: Vec<u64> = if g.thorough { (1..=64).collect() } else { vec![1, 2, 7, 8, 13, 31, 32, 33, 63, 64] };
+    for w in &widths {
+        let mut bufs: Vec<u64> = vec![0, 1, 2, 63 / w + 1, 64 / w, 64 / w + 1, 128 / w + 1, 10, 100];
+        bufs.sort(); bufs.dedup();
+        let mut lines = Vec::new();
+        for b in &bufs {
+            for n in [0usize, 1, 5, 64, 200] {
+                if !g.thorough && n == 200 && *b > 10 { continue; }
+                let vals: Vec<u64> = (0..n).map(|_| g.rng.word()).collect();
+                let calls: Vec<String> = vals.iter().map(|v| format!("p{}", v)).collect();
+                match (n + *b as usize) % 4 {
+                    0 => lines.push(format!("wr int {} {} : {} c", w, b, calls.join(" "))),
+                    1 => lines.push(format!("wr int {} {} : {} l o c c o l", w, b, calls.join(" "))),     // close is idempotent
+                    2 => lines.push(format!("wr int {} {} : {}", w, b, calls.join(" "))),                 // dropped while open
+                    _ => lines.push(format!("wr int {} {} : e{} l c", w, b, vals.iter().map(|v| v.to_string()).collect::<Vec<_>>().join(","))),
+                }
+            }
+        }
+        g.group(lines);
+    }
+    g.group(vec!["wr int 0 8 : p1 c".to_string(), "wr int 65 8 : p1 c".to_string(), "wr int 8 default : p1 p2 p300 c".to_string()]);
+    // raw writer: bit and 0..64-bit integer pushes mixed, buffer sizes incl. 0 and non-multiples of 64
+    for b in [0u64, 1, 63, 64, 65, 127, 128, 130, 1000] {
+        let mut lines = Vec::new();
+        for rep in 0..(if g.thorough { 12 } else { 4 }) {
+            let n = g.rng.range(0, 80) as usize;
+            let calls: Vec<String> = (0..n).map(|_| match g.rng.below(4) { 0 => format!("b{}", g.rng.below(2)), 1 => format!("i{},0", g.rng.next()), 2 => format!("i{},64", g.rng.word()), _ => format!("i{},{}", g.rng.word(), g.rng.range(1, 63)) }).collect();
+            match rep % 3 {
+                0 => lines.push(format!("wr raw {} : {} c", b, calls.join(" "))),
+                1 => lines.push(format!("wr raw {} : {} l o c o c l", b, calls.join(" "))),
+                _ => lines.push(format!("wr raw {} : {}", b, calls.join(" "))),
+            }
+        }
+        g.group(lines);
+    }
+    g.group(vec!["wr raw default : b1 i5,3 i0,0 c".to_string()]);
+}
+
+pub fn c13(g: &mut Gen) {
+    // a file made of a concatenation of serialized structures; every mapped type at its structure's offset, at every other
+    // offset inside (no expectation beyond agreement with the model), at every offset >= file length, and under truncation
+    let nfiles = if g.thorough { 40 } else { 10 };
+    for _ in 0..nfiles {
+        let mut file: Vec<u64> = Vec::new();
+        let mut parts: Vec<(&str, usize, usize)> = Vec::new();   // (map type, offset, length in elements)
+        let k = 2 + g.rng.below(5);
+        for _ in 0..k {
+            let off = file.len();
+            let (ty, enc): (&str, Vec<u64>) = match g.rng.below(7) {
+                0 => { let n = g.rng.below(10) as usize; ("slice1", doc_vec(&(0..n).map(|_| g.rng.word()).collect::<Vec<u64>>())) },
+                1 => { let n = g.rng.below(6) as usize; let v: Vec<u64> = (0..2 * n).map(|_| g.rng.word()).collect(); let mut e = vec![n as u64]; e.extend(&v); ("slice2", e) },
+                2 => { let n = g.rng.below(30) as usize; ("bytes", doc_bytes(&(0..n).map(|_| g.rng.next() as u8).collect::<Vec<u8>>())) },
+                3 => { let n = g.rng.below(30) as usize; ("str", doc_bytes(&(0..n).map(|i| b"abcdefghijklmnopqrstuvwxyz"[i % 26]).collect::<Vec<u8>>())) },
+                4 => { let n = g.rng.below(300) as usize; let b = make_bits(g, n, 2); ("raw", doc_raw(&b)) },
+                5 => { let w = 1 + g.rng.below(64); let n = g.rng.below(40) as usize; ("int", doc_int(&(0..n).map(|_| g.rng.next() & if w == 64 { !0 } else { (1u64 << w) - 1 }).collect::<Vec<u64>>(), w)) },
+                _ => { if g.rng.chance(1, 2) { ("optslice1", vec![0]) } else { let v = doc_vec(&[1, 2, 3]); let mut e = vec![v.len() as u64]; e.extend(v); ("optslice1", e) } },
+            };
+            parts.push((ty, off, enc.len()));
+            file.extend(enc);
+        }
+        let fs = ws(&file);
+        let mut lines = Vec::new();
+        for (ty, off, _len) in &parts {
+            lines.push(format!("map {} {} trunc=- x=ok : {}", ty, off, fs));
+            if *ty == "int" { lines.push(format!("map intget {} trunc=- x=ok : {}", off, fs)); }
+            if *ty == "raw" { lines.push(format!("map rawbits {} trunc=- x=ok : {}", off, fs)); }
+        }
+        // views tile the file: the harness prints off= and len= of every view; the driver's model values are the offsets
+        // computed from the serialized sizes, so a view that does not end where the next structure starts disagrees
+        for ty in ["slice1", "slice2", "bytes", "str", "raw", "int", "optslice1", "optraw", "optbytes"] {
+            for off in [file.len() as u64, file.len() as u64 + 1, file.len() as u64 * 2, 1 << 63, MAXU - 1, MAXU] {
+                lines.push(format!("map {} {} trunc=- x=eof : {}", ty, off, fs));
+            }
+        }
+        // every 8-byte truncation that cuts the last structure short
+        let (lty, loff, llen) = parts[parts.len() - 1];
+        for cut in (loff + 1)..(loff + llen) { lines.push(format!("map {} {} trunc={} x=err : {}", lty, loff, cut, fs)); }
+        g.group(lines);
+    }
+}
+
+pub fn c18(g: &mut Gen) {
+    let sizes: Vec<u64> = if g.thorough { vec![0, 8, 16, 4088, 4096, 4104, 8192, 12288, 32 * 4096, 1000 * 4096, 3, 4097] } else { vec![0, 8, 4088, 4096, 4104, 8192, 32 * 4096, 5] };
+    let mut lines = Vec::new();
+    for s in sizes { for mode in ["ro", "rw"] { lines.push(format!("mmap cycle {} {} {}", s, mode, if g.thorough { 5 } else { 3 })); } }
+    lines.push("mmap missing".to_string());
+    // each line is its own group so that leaked mappings of one case are not attributed to another file
+    for l in lines { g.one(l); }
+}
+
+pub fn c20(g: &mut Gen) {
+    let cases: Vec<(u64, u64)> = if g.thorough { vec![(2, 100_000), (16, 50_000), (64, 10_000), (1, 1000)] } else { vec![(2, 20_000), (16, 5_000), (64, 1_000), (1, 100)] };
+    // one group (one process): the counter is process-wide, so all cases share it
+    let lines: Vec<String> = cases.iter().map(|(t, c)| format!("tmp {} {} name-part", t, c)).collect();
+    g.group(lines);
+}
+
+pub fn c07(g: &mut Gen) {
+    // direction 1: the bytes written for every structure decode, by the rules of the document alone, into the same content
+    // (`doc` lines are evaluated by the Lean document decoder on the implementation's bytes)
+    let sizes: Vec<usize> = if g.thorough { vec![0, 1, 63, 64, 65, 513, 4097] } else { vec![0, 1, 64, 65, 700] };
+    for size in sizes {
+        for _ in 0..(if g.thorough { 4 } else { 2 }) {
+            let mut lines = Vec::new();
+            let names = zoo(g, &mut lines, size);
+            let kinds = ["raw", "iv", "bv", "sp", "rl", "wm"];
+            for (i, n) in names.iter().enumerate() { lines.push(format!("{} {} ser", kinds[i], n)); lines.push(format!("{} {} doc", kinds[i], n)); }
+            g.group(lines);
+        }
+    }
+    // RL: many blocks, blocks closed early, final block not full
+    for n in [1usize, 40, 300] {
+        let mut runs: Vec<(u64, u64)> = Vec::new(); let mut pos = 0u64;
+        for i in 0..n { let gap = 1 + g.rng.below(if i % 7 == 0 { 1 << 30 } else { 9 }); let len = 1 + g.rng.below(if i % 11 == 0 { 1 << 25 } else { 9 }); runs.push((pos + gap, len)); pos += gap + len; }
+        let calls: Vec<String> = runs.iter().map(|(a, l)| format!("s{},{}", a, l)).collect();
+        g.group(vec![format!("rl R build : {} l{}", calls.join(" "), pos + 3), "rl R ser".to_string(), "rl R doc".to_string()]);
+    }
+    // direction 2: files produced from the document's rules alone — supports absent, any admissible parameter — load and
+    // answer all queries correctly
+    for n in [0u64, 1, 2, 63, 64, 65, 1000, 1 << 20] {
+        let m = std::cmp::min(n, if g.thorough { 200 } else { 50 });
+        let mut vals: Vec<u64> = (0..m).map(|_| g.rng.below(n.max(1))).collect(); vals.sort(); vals.dedup();
+        if n == 0 { vals.clear(); }
+        for w in [1u64, 2, 5, 13, 20] {
+            if (n >> w) > 5000 { continue; }
+            let mut lines = vec![format!("ser load sp cut=- x=ok store=S : {}", ws(&doc_sparse(n, &vals, w)))];
+            lines.push(format!("sp S ref {} {}", n, ws(&vals)));
+            lines.push("sp S len".to_string()); lines.push("sp S ones".to_string());
+            for i in [0u64, 1, n / 3, n / 2, n.saturating_sub(1), n, n + 1] {
+                if i < n { lines.push(format!("sp S get {}", i)); }
+                lines.push(format!("sp S rank {}", i)); lines.push(format!("sp S pred {}", i)); lines.push(format!("sp S succ {}", i));
+                lines.push(format!("sp S select {}", i % (vals.len() as u64 + 2))); lines.push(format!("sp S select0 {}", i));
+            }
+            lines.push(format!("sp S it one : {} l", vec!["n"; vals.len()].join(" ")));
+            g.group(lines);
+        }
+    }
+    for size in [0usize, 1, 64, 65, 1000, 5000] {
+        let bits = make_bits(g, size, if size % 2 == 0 { 2 } else { 6 });
+        let mut lines = vec![format!("ser load bv cut=- x=ok store=B : {}", ws(&doc_bv(&bits)))];
+        lines.push(format!("bv B ref {}", if bits.is_empty() { "-".to_string() } else { bitstring(&bits) }));
+        lines.push("bv B supports".to_string()); lines.push("bv B enable rsz".to_string());
+        for i in [0usize, 1, size / 2, size] { lines.push(format!("bv B rank {}", i)); lines.push(format!("bv B select {}", i / 3)); lines.push(format!("bv B select0 {}", i / 3)); lines.push(format!("bv B pred {}", i)); }
+        // run-length vector from the document's rules, with minimal and with wider-than-minimal samples
+        let mut runs: Vec<(u64, u64)> = Vec::new();
+        for (i, b) in bits.iter().enumerate() { if *b { if let Some(l) = runs.last_mut() { if l.0 + l.1 == i as u64 { l.1 += 1; continue; } } runs.push((i as u64, 1)); } }
+        for extra in [0u64, 1, 7] {
+            lines.push(format!("ser load rl cut=- x=ok store=R{} : {}", extra, ws(&doc_rl(size as u64, &runs, extra))));
+            lines.push(format!("rl R{} ref {} {}", extra, size, runs.iter().map(|(a, l)| format!("{},{}", a, l)).collect::<Vec<_>>().join(" ")));
+            lines.push(format!("rl R{} runs", extra));
+            for i in [0usize, 1, size / 2, size] { lines.push(format!("rl R{} rank {}", extra, i)); lines.push(format!("rl R{} select {}", extra, i / 3)); lines.push(format!("rl R{} select0 {}", extra, i / 3)); lines.push(format!("rl R{} succ {}", extra, i)); }
+        }
+        let vals: Vec<u64> = (0..std::cmp::min(size, 300)).map(|_| g.rng.below(if size % 2 == 0 { 6 } else { 300 })).collect();
+        lines.push(format!("ser load wm cut=- x=ok store=W : {}", ws(&doc_wm(&vals))));
+        lines.push(format!("wm W ref {}", ws(&vals)));
+        lines.push("wm W items".to_string()); lines.push("wm W width".to_string());
+        for v in [0u64, 1, 5, 299, 300] { lines.push(format!("wm W rank {} {}", vals.len() / 2, v)); lines.push(format!("wm W select 1 {}", v)); lines.push(format!("wm W contains {}", v)); }
+        g.group(lines);
+    }
+}
